@@ -95,7 +95,7 @@ var vhColumnSets = [][]string{
 }
 
 //verif:shards 4
-//verif:bounds 4 table definitions (plain, INTEGER PRIMARY KEY alias with DEFAULT, table-constraint rowid alias, ordinary columns named oid/_rowid_) x 6 column lists (permutations, duplicates, rowid/oid/_rowid_, case variants, unknown names) x trees of 1 leaf or interior+2 leaves with 1..2 rows per leaf; row values and rowids any int64; first-leaf rows optionally one column short (ALTER TABLE ADD COLUMN)
+//verif:bounds 4 table definitions (plain, INTEGER PRIMARY KEY alias with DEFAULT, table-constraint rowid alias, ordinary columns named oid/_rowid_) x 6 column lists (permutations, duplicates, rowid/oid/_rowid_, case variants, unknown names) x page size 512 / 4096 (thorough: + 65536) x trees of 1 leaf or interior+2 leaves with 1..2 rows per leaf; row values and rowids any int64; first-leaf rows optionally one column short (ALTER TABLE ADD COLUMN)
 //verif:prop C01,C20
 func VH_C01_select() {
 	sc := vhSchemas[sdb.VerifShard(4)]
@@ -103,7 +103,10 @@ func VH_C01_select() {
 	leaves := 1 + sdb.VerifChoice(2)
 	per := 1 + sdb.VerifChoice(2)
 	short := sdb.VerifChoice(2)
-	f := sdb.VerifNewFile(512)
+	// page size: 512 and 4096 always; the largest, 65536 (stored as 1 in the
+	// header), in the thorough tier
+	sizes := [3]int{512, 4096, 65536}
+	f := sdb.VerifNewFile(sizes[sdb.VerifChoice(2+sdb.VerifTier())])
 	root := f.AddPage()
 	f.Master([]sdb.VerifMasterRow{{Typ: "table", Name: "t", Tbl: "t", Root: root, SQL: sc.sql}})
 	rows := vhTable(f, root, leaves, per, sc.ncols, short, sc.rowidCol == 0)
@@ -186,7 +189,7 @@ func vhLower(s string) string {
 // public API, for payload lengths around each threshold (page size 512:
 // X = 477 local maximum, M = 39 minimum, 508 bytes per overflow page).
 //verif:prop C01,C14
-//verif:bounds page size 512; payload lengths P in {476,477,478,546,547,985,986,1055,1500}; blob content symbolic; rowid symbolic
+//verif:bounds page size 512; payload lengths P in {476,477,478,546,547,985,986,1055,1500}; blob content symbolic, compared at both ends and on either side of every chunk boundary; rowid symbolic
 func VH_C01_overflow_row() {
 	lengths := [...]int{476, 477, 478, 546, 547, 985, 986, 1055, 1500}
 	p := lengths[sdb.VerifChoice(len(lengths))]
@@ -250,9 +253,20 @@ func VH_C01_overflow_row() {
 	sdb.VerifNoErr(err, "select succeeds")
 	sdb.VerifAssert(n == 1 && gotID == rowid && len(got) == blobLen, "one row with the full-length blob")
 	if len(got) == blobLen {
-		i := sdb.VerifInt()
-		sdb.VerifAssume(i >= 0 && i < blobLen)
-		sdb.VerifAssert(got[i] == content[i], "blob content across the overflow chain")
+		// every byte on either side of each chunk boundary, plus both ends (the
+		// all-positions statement with a skolem index is C14's spill harness)
+		check := func(i int) {
+			if i >= 0 && i < blobLen {
+				sdb.VerifAssert(got[i] == content[i], "blob content across the overflow chain")
+			}
+		}
+		check(0)
+		check(blobLen - 1)
+		for b := local - hdrLen; b < blobLen+2; b += U - 4 {
+			check(b - 1)
+			check(b)
+			check(b + 1)
+		}
 	}
 	sdb.VerifReach("end")
 }
